@@ -77,6 +77,20 @@ def write_if_changed(path, text):
 _harness_built = set()
 
 
+def c_sources_tag():
+    """The repository's build script compiles src/low_level/extract.c through the cc crate, which tells cargo to re-run it only
+    when certain environment variables change - an edit of extract.c alone would leave a stale object in a warm target
+    directory.  CFLAGS is one of those variables: a define carrying the hash of the C sources makes the build follow them."""
+    import hashlib
+    h = hashlib.sha1()
+    for rel in ('src/low_level/extract.c', 'build.rs'):
+        try:
+            h.update(open(os.path.join(REPO, rel), 'rb').read())
+        except OSError:
+            h.update(b'-')
+    return '-DSH_VERIF_C_SOURCES_%s=1' % h.hexdigest()[:16]
+
+
 def build_harness(bins=None):
     """cargo build of the harness against /repo's current working tree, hooks enabled.
     bins: list of binary names (None = everything; sh_probe is always built)."""
@@ -90,7 +104,7 @@ def build_harness(bins=None):
             import shutil
             shutil.copy(src, lock)
         sel = '' if not bins else ' '.join('--bin ' + b for b in sorted(set(bins) | {'sh_probe'}))
-        rc, out, _ = sh('cargo build --offline %s 2>&1' % sel, cwd=HARNESS, env={'RUSTFLAGS': RUSTFLAGS}, timeout=900)
+        rc, out, _ = sh('cargo build --offline %s 2>&1' % sel, cwd=HARNESS, env={'RUSTFLAGS': RUSTFLAGS, 'CFLAGS': c_sources_tag()}, timeout=900)
     if rc == 0:
         _harness_built.add(key)
     return rc == 0, out
